@@ -311,6 +311,9 @@ def r5_saved_from_file(ctx):
 
 
 def run(ctx):
+    # E-drop (rules/dropped.py): no bool result of a function of these modules is thrown away by a caller anywhere in the workspace
+    from . import dropped
+    dropped.rule_dropped(ctx, "C18.R6", [k for k in ["cascette_formats", "cascette_client_storage", "cascette_cache", "cascette_protocol", "cascette_ribbit"] if k in (CRATES or [])] or CRATES, r"client-storage/src/storage/(compaction|segment)", floor=0)
     r5_saved_from_file(ctx)
     r1_validate_first(ctx)
     r2_validate_shape(ctx)
@@ -319,4 +322,4 @@ def run(ctx):
 
 
 from .selftest import for_families as _ff  # noqa: E402
-selftest = _ff(['slice', 'gate'])
+selftest = _ff(['slice', 'gate', 'drop'])
